@@ -37,6 +37,8 @@ def _set_by_path(obj: Any, path: str, value: Any) -> None:
             if key not in cur or not isinstance(cur[key], list):
                 cur[key] = []
             _ensure_list_size(cur[key], idx)
+            if idx < 0 and -idx > len(cur[key]):
+                return  # negative index outside the list → no-op (like an invalid index)
 
             if is_last:
                 cur[key][idx] = value
